@@ -324,6 +324,10 @@ finding("C05-exclusion-by-bare-name-after-split", "C05", [],
  "duckdb / snowflake / bigquery: `select !{t.n}` over a join of two wildcard relations that both have a column n, when later steps force a sub-query: the result lacks the other relation's n as well",
  "`from t2 | join t1 (t2.id == t1.a) | derive {..} | filter !t2.f | select !{t2.f} | filter ..` under bigquery: `WITH table_0 AS (SELECT t2.* EXCEPT (f), t1.*, .., t2.f FROM ..) SELECT * EXCEPT (f) FROM table_0 WHERE ..`: the outer, unqualified `* EXCEPT (f)` removes both the helper copy of t2.f and t1.f, which is part of the frame.",
  None)
+finding("C05-wildcard-sort-helper-kept-with-exclude", "C05", [],
+ "duckdb / snowflake / bigquery, a wildcard query that ends with a sort on a computed key in effect: the extra result columns are exactly the `_expr_N` named in the final ORDER BY",
+ "`from t2 | .. | sort {(k * -1)} | filter (min 0) > 0 | ..` under bigquery ends in `SELECT * EXCEPT (_expr_0) FROM table_0 WHERE _expr_0 > 0 ORDER BY _expr_1`: the computed sort key `_expr_1` is part of `*` and is not excluded, so the result has one column more than the frame (the helper of the filter is excluded correctly).",
+ None)
 finding("C07-loop-after-sort-arity", "C07", ["C05"],
  "a `loop` whose input pipeline has a sort in effect: the emitted WITH RECURSIVE has a UNION ALL between different arities",
  "`from t1 | select {id} | sort {id} | take 3 | select {zn = 1} | loop (filter zn < 4 | select {zn = zn + 1})`: the sort column is appended to the anchor of the recursive CTE only (`SELECT 1 AS zn, id FROM .. UNION ALL SELECT zn + 1 FROM table_0 ..`).",
